@@ -86,6 +86,21 @@ class Env(object):
         self.excs[repr(tag)] = e
         return e
 
+    # -- semantic triggers: "run this client op once <event> has happened" (placement of a
+    #    racing operation inside a window, DESIGN 3.3); user code calls hit(), clients await_()
+    def hit(self, name):
+        ev = self.objs.setdefault("_triggers", {}).get(name)
+        if ev is None:
+            ev = self.objs["_triggers"][name] = core.SimEvent()
+        if not ev.is_set():
+            ev.set()
+
+    def await_(self, name, timeout=5.0):
+        ev = self.objs.setdefault("_triggers", {}).get(name)
+        if ev is None:
+            ev = self.objs["_triggers"][name] = core.SimEvent()
+        return ev.wait(timeout)
+
     # -- threads
     def client(self, fn, name=None):
         name = name or ("client-%d" % (len(self.clients) + 1))
